@@ -20,7 +20,8 @@ META = {
              "YAML, TOML; no text starting with an ASCII byte ('{', '[', '---') can be taken for MessagePack; the MessagePack "
              "writer's array/map headers always start with a collection marker; hence xt's JSON / YAML / MessagePack / TOML output "
              "is detected as what it is whenever the format's own trial accepts its writer's output (explicit premises; for TOML "
-             "also the property's exclusions). The order and error plumbing are diffed against the real detect_format: the four "
+             "also the property's exclusions). For MessagePack that premise is proved too: the modelled trial accepts the modelled "
+             "writer's output for EVERY array- or map-rooted encodable value within the depth limit, whatever follows it. The order and error plumbing are diffed against the real detect_format: the four "
              "trials are put to the third-party crates directly, the model predicts the answer, the hook reports xt's. The oracle "
              "feeds xt's output for collection-rooted documents (empty collections; first keys empty, numeric-looking, quoted, "
              "non-ASCII, starting with bytes 0x80-0xDF) back with no format named: detected format and output must equal the "
@@ -156,6 +157,7 @@ def run(outcome, tier, seed):
                     "outside the property's TOML exclusions)")
     if outcome.hooks_available:
         run_order_correspondence(outcome, tier, seed)
+        shared.msgpack_correspondence(outcome, tier, seed, oracle=False)
         run_self_detection(outcome, tier, seed)
     else:
         outcome.notes.append("verif hooks unavailable")
